@@ -235,6 +235,28 @@ def judge_map(month, stride):
         except Exception as ex:
             out.append(("map_lookup_no_exception", "scalar", [float(x), float(y)], f"{type(ex).__name__}: {str(ex)[:60]}"))
             break
+    # long sequences of scalar lookups on ONE instance (what a run does): three adjacent latitude rows x every longitude
+    # node, then the same in reverse order -- any per-instance memo keyed wrongly makes a later lookup return an earlier
+    # cell's value
+    c2 = CloudTopHeight(cfg)
+    i0 = nlat // 2 + 20
+    seq = [(i, j) for i in (i0, i0 + 1, i0 + 2) for j in range(nlon)]
+    for order in (seq, seq[::-1]):
+        for i, j in order:
+            la, lo = lats[i], lons[j]
+            try:
+                got = float(c2(float(np.radians(la)), float(np.radians(lo))))
+            except Exception as ex:
+                out.append(("map_lookup_no_exception", "sequence", [float(la), float(lo)], f"{type(ex).__name__}: {str(ex)[:60]}"))
+                break
+            n += 1
+            cands = [altmap[a, b] for a in (max(i - 1, 0), i, min(i + 1, nlat - 1)) for b in (max(j - 1, 0), j, min(j + 1, nlon - 1))]
+            if not any(got == x or abs(got - x) <= 1e-12 * abs(x) for x in cands):
+                out.append(("map_cloud_top_of_the_cell_containing_the_site", "sequence", [float(la), float(lo), float(altmap[i, j])], got))
+                break
+        else:
+            continue
+        break
     # the result must depend on longitude and on latitude somewhere (a transposed / constant-row lookup does not)
     return out, n
 
